@@ -150,7 +150,7 @@ val old_rectype : variant
 
 val old_autolink : variant
 
-val repaired : variant
+val old_recfollows : variant
 
 type res =
 | ROk of obj * bool
@@ -185,7 +185,7 @@ val identify_old_rectype : cfg -> outcome
 
 val identify_old_autolink : cfg -> outcome
 
-val identify_repaired : cfg -> outcome
+val identify_old_recfollows : cfg -> outcome
 
 val rec_effective : cfg -> bool
 
@@ -194,8 +194,6 @@ val type_is_auto_or_directory : otype -> bool
 val spec : cfg -> outcome
 
 val spec_strict : cfg -> outcome
-
-val known_deviation : cfg -> bool
 
 val all_kinds : argkind list
 
